@@ -213,14 +213,64 @@ lemma isPrimeTD_iff (p : ℕ) : isPrimeTD p = true ↔ p.Prime := by
       have := h d hd (Nat.dvd_of_mod_eq_zero hmod)
       omega
 
-lemma mem_primesOf {n : ℕ} (hn : 0 < n) (p : ℕ) : p ∈ primesOf n ↔ p.Prime ∧ p ∣ n := by
-  unfold primesOf
+lemma mem_primesSlow {n : ℕ} (hn : 0 < n) (p : ℕ) : p ∈ primesSlow n ↔ p.Prime ∧ p ∣ n := by
+  unfold primesSlow
   simp only [List.mem_filter, List.mem_range, Bool.and_eq_true, beq_iff_eq, isPrimeTD_iff]
   constructor
   · rintro ⟨_, hd, hp⟩
     exact ⟨hp, Nat.dvd_of_mod_eq_zero hd⟩
   · rintro ⟨hp, hd⟩
     exact ⟨Nat.lt_succ_of_le (Nat.le_of_dvd hn hd), Nat.mod_eq_zero_of_dvd hd, hp⟩
+
+lemma noDivFrom_spec (fuel d p : ℕ) (h : noDivFrom fuel d p = true) :
+    ∀ m, d ≤ m → m * m ≤ p → ¬ m ∣ p := by
+  induction fuel generalizing d with
+  | zero => simp [noDivFrom] at h
+  | succ f ih =>
+    unfold noDivFrom at h
+    intro m hdm hmm
+    split_ifs at h with h1 h2
+    · have : d * d ≤ m * m := Nat.mul_le_mul hdm hdm
+      omega
+    · rcases Nat.eq_or_lt_of_le hdm with rfl | hlt
+      · intro hd; exact h2 (Nat.mod_eq_zero_of_dvd hd)
+      · exact ih (d + 1) h m hlt hmm
+
+lemma isPrimeSq_prime {p : ℕ} (h : isPrimeSq p = true) : p.Prime := by
+  unfold isPrimeSq at h
+  simp only [Bool.and_eq_true, decide_eq_true_eq] at h
+  rw [Nat.prime_def_le_sqrt]
+  refine ⟨h.1, fun m hm hs => ?_⟩
+  exact noDivFrom_spec p 2 p h.2 m hm (Nat.le_sqrt.1 hs)
+
+lemma mem_of_prime_dvd_prodPows {q n : ℕ} (hq : q.Prime) (c : List ℕ) (hc : ∀ p ∈ c, p.Prime)
+    (hd : q ∣ prodPows c n) : q ∈ c := by
+  induction c with
+  | nil =>
+    simp [prodPows] at hd
+    exact absurd hd hq.one_lt.ne'
+  | cons p c ih =>
+    have hstep : prodPows (p :: c) n = p ^ mult p n * prodPows c n := rfl
+    rw [hstep] at hd
+    rcases (Nat.Prime.dvd_mul hq).1 hd with h | h
+    · have h1 := Nat.Prime.dvd_of_dvd_pow hq h
+      have := (Nat.prime_dvd_prime_iff_eq hq (hc p (by simp))).1 h1
+      simp [this]
+    · exact List.mem_cons_of_mem _ (ih (fun x hx => hc x (by simp [hx])) h)
+
+lemma mem_primesOf {n : ℕ} (hn : 0 < n) (p : ℕ) : p ∈ primesOf n ↔ p.Prime ∧ p ∣ n := by
+  unfold primesOf
+  simp only
+  split_ifs with h
+  · simp only [Bool.and_eq_true, List.all_eq_true, beq_iff_eq] at h
+    obtain ⟨hall, hprod⟩ := h
+    constructor
+    · intro hp
+      exact ⟨isPrimeSq_prime (hall p hp).1, Nat.dvd_of_mod_eq_zero (hall p hp).2⟩
+    · rintro ⟨hp, hd⟩
+      apply mem_of_prime_dvd_prodPows hp _ (fun q hq => isPrimeSq_prime (hall q hq).1)
+      rw [hprod]; exact hd
+  · exact mem_primesSlow hn p
 
 lemma mem_foldl_insertNew (l acc : List ℕ) (p : ℕ) :
     p ∈ l.foldl insertNew acc ↔ p ∈ acc ∨ p ∈ l := by
@@ -453,6 +503,209 @@ theorem c16_check_sound (bs : List ℚ) (h : ∀ b ∈ bs, b ≠ 0) (R : List (L
   refine ⟨z', hl', ?_⟩
   rw [hz', comb_comb bs.length R.length z Y R hYl hlen, hY, hz]
 
+
+/-- **the verdicts of `lattice_check` are exact**: the three executable checks hold if and only if
+the proposed rows are a ℤ-basis of the exponent lattice — no false alarms and no missed defects on the
+specification side. -/
+theorem c16_check_iff (bs : List ℚ) (h : ∀ b ∈ bs, b ≠ 0) (R : List (List ℤ)) :
+    ((∀ r ∈ R, relationHolds bs r = true) ∧ independent bs.length R = true ∧
+        ∀ s ∈ latticeBasis bs, inIntSpan bs.length R s = true) ↔
+      IsBasisOf bs.length (fun e => zprod bs e = 1) R := by
+  constructor
+  · rintro ⟨h1, h2, h3⟩
+    exact c16_check_sound bs h R h1 h2 h3
+  · intro hb
+    have hspec := c16_rational bs h
+    refine ⟨fun r hr => (relationHolds_iff bs r).2 ⟨hb.len r hr, hb.sound r hr⟩,
+      independent_complete bs.length R hb.len hb.indep, fun s hs => ?_⟩
+    obtain ⟨z, hz, hzs⟩ := hb.complete s (hspec.len s hs) (hspec.sound s hs)
+    exact inIntSpan_complete bs.length R hb.len s (hspec.len s hs) z hz hzs
+
+/-- non-vacuity of `c16_check_sound` / `c16_check_iff`: the verdicts are all green for a correct answer
+and not all green for the code's answer on 4, 8 -/
+example : (∀ b ∈ ([4, 8, -2] : List ℚ), b ≠ 0) ∧
+    (∀ r ∈ ([[3, -2, 0], [1, 0, -2]] : List (List ℤ)), relationHolds [4, 8, -2] r = true) ∧
+    independent 3 [[3, -2, 0], [1, 0, -2]] = true ∧
+    (∀ s ∈ latticeBasis [4, 8, -2], inIntSpan 3 [[3, -2, 0], [1, 0, -2]] s = true) ∧
+    relationHolds [4, 8] [-1, 1] = false := by
+  refine ⟨by simp, by decide +kernel, by decide +kernel, by decide +kernel, by decide +kernel⟩
+
+/-! ### the coprimality shortcut `is_trivially_empty` is right as long as no base equals 1 -/
+
+def numsNe1 (bs : List ℚ) : List ℤ := (bs.map (fun b => b.num)).filter (fun n => n != 1)
+def densNe1 (bs : List ℚ) : List ℤ := (bs.map (fun b => (b.den : ℤ))).filter (fun d => d != 1)
+
+lemma pairwiseCoprime_iff (l : List ℤ) :
+    pairwiseCoprime l = true ↔ l.Pairwise (fun a b => Int.gcd a b = 1) := by
+  induction l with
+  | nil => simp [pairwiseCoprime]
+  | cons a l ih =>
+    simp only [pairwiseCoprime, Bool.and_eq_true, List.all_eq_true, beq_iff_eq, ih, List.pairwise_cons]
+
+/-- the shortcut's condition in propositional form -/
+structure TrivEmpty (bs : List ℚ) : Prop where
+  big : ∀ b ∈ bs, b.num ≠ 1 → 1 < b.num.natAbs
+  cop : (numsNe1 bs ++ densNe1 bs).Pairwise (fun a b => Int.gcd a b = 1)
+
+lemma trivEmpty_of_isTriviallyEmpty {bs : List ℚ} (h : isTriviallyEmpty bs = true) : TrivEmpty bs := by
+  unfold isTriviallyEmpty at h
+  split_ifs at h with he
+  · have : bs = [] := by simpa using he
+    subst this
+    exact ⟨by simp, by simp [numsNe1, densNe1]⟩
+  · simp only [Bool.and_eq_true, List.all_eq_true, decide_eq_true_eq, pairwiseCoprime_iff] at h
+    refine ⟨fun b hb hne => ?_, h.2⟩
+    apply h.1
+    simp only [List.mem_filter, List.mem_map, bne_iff_ne, ne_eq]
+    exact ⟨⟨b, hb, rfl⟩, hne⟩
+
+lemma numsNe1_cons (b : ℚ) (bs : List ℚ) :
+    numsNe1 (b :: bs) = (if b.num != 1 then [b.num] else []) ++ numsNe1 bs := by
+  unfold numsNe1
+  simp only [List.map_cons, List.filter_cons]
+  split_ifs <;> simp
+
+lemma densNe1_cons (b : ℚ) (bs : List ℚ) :
+    densNe1 (b :: bs) = (if (b.den : ℤ) != 1 then [(b.den : ℤ)] else []) ++ densNe1 bs := by
+  unfold densNe1
+  simp only [List.map_cons, List.filter_cons]
+  split_ifs <;> simp
+
+lemma gcd_symm_rel {a b : ℤ} (h : Int.gcd a b = 1) : Int.gcd b a = 1 := by
+  rw [Int.gcd_comm]; exact h
+
+lemma TrivEmpty.tail {b : ℚ} {bs : List ℚ} (h : TrivEmpty (b :: bs)) :
+    TrivEmpty bs ∧
+      (∀ x ∈ numsNe1 bs ++ densNe1 bs,
+        (b.num ≠ 1 → Int.gcd b.num x = 1) ∧ ((b.den : ℤ) ≠ 1 → Int.gcd (b.den : ℤ) x = 1)) := by
+  have hperm : (numsNe1 (b :: bs) ++ densNe1 (b :: bs)).Perm
+      (((if b.num != 1 then [b.num] else []) ++ (if (b.den : ℤ) != 1 then [(b.den : ℤ)] else [])) ++
+        (numsNe1 bs ++ densNe1 bs)) := by
+    rw [numsNe1_cons, densNe1_cons]
+    simp only [List.append_assoc]
+    apply List.Perm.append_left
+    rw [← List.append_assoc, ← List.append_assoc]
+    exact List.Perm.append_right _ List.perm_append_comm
+  have hp := hperm.pairwise h.cop (fun {x y} hxy => gcd_symm_rel hxy)
+  rw [List.pairwise_append] at hp
+  obtain ⟨_, htail, hcross⟩ := hp
+  refine ⟨⟨fun b' hb' => h.big b' (by simp [hb']), htail⟩, fun x hx => ⟨fun hn => ?_, fun hd => ?_⟩⟩
+  · apply hcross b.num _ x hx
+    simp [hn]
+  · apply hcross (b.den : ℤ) _ x hx
+    simp [hd]
+
+lemma not_dvd_of_gcd_eq_one {p : ℕ} (hp : p.Prime) {a x : ℤ} (h : Int.gcd a x = 1) (ha : p ∣ a.natAbs) :
+    ¬ p ∣ x.natAbs := by
+  intro hx
+  have : p ∣ Nat.gcd a.natAbs x.natAbs := Nat.dvd_gcd ha hx
+  have h1 : Nat.gcd a.natAbs x.natAbs = 1 := h
+  rw [h1] at this
+  exact hp.one_lt.ne' (Nat.dvd_one.1 this)
+
+/-- a prime that separates the first base from all the others -/
+lemma exists_private_prime {b : ℚ} {bs : List ℚ} (hb1 : b ≠ 1) (h : TrivEmpty (b :: bs)) :
+    ∃ p : ℕ, p.Prime ∧ padicValRat p b ≠ 0 ∧ ∀ b' ∈ bs, ¬ p ∣ b'.num.natAbs ∧ ¬ p ∣ b'.den := by
+  obtain ⟨_, hcross⟩ := h.tail
+  have hcop : Nat.Coprime b.num.natAbs b.den := b.reduced
+  -- the others: whatever divides an element of the first base's list does not divide theirs
+  have others : ∀ (p : ℕ), p.Prime → ∀ a : ℤ, p ∣ a.natAbs →
+      (∀ x ∈ numsNe1 bs ++ densNe1 bs, Int.gcd a x = 1) →
+      ∀ b' ∈ bs, ¬ p ∣ b'.num.natAbs ∧ ¬ p ∣ b'.den := by
+    intro p hp a ha hall b' hb'
+    constructor
+    · by_cases h1 : b'.num = 1
+      · rw [h1]; simpa using hp.one_lt.ne'
+      · apply not_dvd_of_gcd_eq_one hp (hall b'.num _) ha
+        apply List.mem_append_left
+        simp only [numsNe1, List.mem_filter, List.mem_map, bne_iff_ne, ne_eq]
+        exact ⟨⟨b', hb', rfl⟩, h1⟩
+    · by_cases h1 : (b'.den : ℤ) = 1
+      · have : b'.den = 1 := by exact_mod_cast h1
+        rw [this]; simpa using hp.one_lt.ne'
+      · have := not_dvd_of_gcd_eq_one hp (hall (b'.den : ℤ) (by
+          apply List.mem_append_right
+          simp only [densNe1, List.mem_filter, List.mem_map, bne_iff_ne, ne_eq]
+          exact ⟨⟨b', hb', rfl⟩, h1⟩)) ha
+        simpa using this
+  by_cases hn : b.num = 1
+  · -- numerator 1: the denominator is not 1
+    have hd : b.den ≠ 1 := by
+      intro hd
+      apply hb1
+      rw [← Rat.num_div_den b, hn, hd]; simp
+    obtain ⟨p, hp, hpd⟩ := Nat.exists_prime_and_dvd hd
+    have : Fact p.Prime := ⟨hp⟩
+    refine ⟨p, hp, ?_, ?_⟩
+    · rw [padicValRat_def, hn]
+      have := (dvd_iff_padicValNat_ne_zero b.den_nz).1 hpd
+      rw [padicValInt.one]
+      intro h0
+      have h2 : (padicValNat p b.den : ℤ) = 0 := by
+        simp only [Nat.cast_zero, zero_sub, neg_eq_zero] at h0
+        exact h0
+      exact this (by exact_mod_cast h2)
+    · have hd' : (b.den : ℤ) ≠ 1 := by exact_mod_cast hd
+      exact others p hp (b.den : ℤ) (by simpa using hpd) (fun x hx => (hcross x hx).2 hd')
+  · have hbig := h.big b (by simp) hn
+    obtain ⟨p, hp, hpd⟩ := Nat.exists_prime_and_dvd (by omega : b.num.natAbs ≠ 1)
+    have : Fact p.Prime := ⟨hp⟩
+    have hnd : ¬ p ∣ b.den := fun hd => hp.one_lt.ne' (Nat.eq_one_of_dvd_coprimes hcop hpd hd)
+    refine ⟨p, hp, ?_, others p hp b.num hpd (fun x hx => (hcross x hx).1 hn)⟩
+    rw [padicValRat_def, padicValNat.eq_zero_of_not_dvd hnd]
+    have hnum0 : b.num.natAbs ≠ 0 := by omega
+    have := (dvd_iff_padicValNat_ne_zero hnum0).1 hpd
+    unfold padicValInt
+    simp only [Nat.cast_zero, sub_zero, ne_eq]
+    exact_mod_cast this
+
+/-- if the shortcut fires and no base is 1, the only relation is the trivial one -/
+theorem trivEmpty_only_zero {bs : List ℚ} (h0 : ∀ b ∈ bs, b ≠ 0) (h1 : ∀ b ∈ bs, b ≠ 1)
+    (ht : TrivEmpty bs) (es : List ℤ) (hl : es.length = bs.length) (hrel : zprod bs es = 1) :
+    ∀ c ∈ es, c = 0 := by
+  induction bs generalizing es with
+  | nil =>
+    have : es = [] := List.length_eq_zero_iff.1 (by simpa using hl)
+    subst this; simp
+  | cons b bs ih =>
+    cases es with
+    | nil => simp at hl
+    | cons e es =>
+      simp only [List.length_cons, add_left_inj] at hl
+      obtain ⟨p, hp, hv, hothers⟩ := exists_private_prime (h1 b (by simp)) ht
+      have hval := ((relation_iff_valuations h0 (e :: es)).1 hrel).1 p hp
+      simp only [valSum] at hval
+      rw [valSum_eq_zero_of_not_mem p hothers, add_zero] at hval
+      have he : e = 0 := by
+        rcases mul_eq_zero.1 hval with h | h
+        · exact h
+        · exact absurd h hv
+      subst he
+      have hrel' : zprod bs es = 1 := by simpa using hrel
+      intro c hc
+      rcases List.mem_cons.1 hc with rfl | hc
+      · rfl
+      · exact ih (fun x hx => h0 x (by simp [hx])) (fun x hx => h1 x (by simp [hx])) ht.tail.1 es hl hrel' c hc
+
+/-- **partial correctness of the code, shortcut branch**: when `is_trivially_empty` fires and no
+base equals 1 the empty answer is a basis (the exponent lattice is trivial).  Without "no base
+equals 1" this is false: `c16_counterexample_1_2`. -/
+theorem c16_partial_trivial (bs : List ℚ) (h0 : ∀ b ∈ bs, b ≠ 0) (h1 : ∀ b ∈ bs, b ≠ 1)
+    (ht : isTriviallyEmpty bs = true) :
+    kernelAsCoded bs = [] ∧ IsBasisOf bs.length (fun e => zprod bs e = 1) (kernelAsCoded bs) := by
+  have hk : kernelAsCoded bs = [] := by simp [kernelAsCoded, ht]
+  refine ⟨hk, ?_⟩
+  rw [hk]
+  refine ⟨by simp, by simp, fun x hx hrel => ⟨[], rfl, ?_⟩, fun z hz _ c hc => ?_⟩
+  · have := trivEmpty_only_zero h0 h1 (trivEmpty_of_isTriviallyEmpty ht) x hx hrel
+    rw [comb_nil_left, ← hx]
+    exact (eq_zeros_of_forall this).symm
+  · have : z = [] := List.length_eq_zero_iff.1 (by simpa using hz)
+    subst this; simp at hc
+
+example : (∀ b ∈ ([4, 9/5, 1/7] : List ℚ), b ≠ 0) ∧ (∀ b ∈ ([4, 9/5, 1/7] : List ℚ), b ≠ 1) ∧
+    isTriviallyEmpty [4, 9/5, 1/7] = true := by
+  refine ⟨by simp, by norm_num, by decide +kernel⟩
 
 /-! ### the code as it stands (`kernelAsCoded` mirrors `compute_basis` for rational bases)
 
